@@ -102,6 +102,7 @@ type Machine struct {
 	fullPaths    int
 	opaqueLocs   map[string]*Loc
 	pendingFns   []string
+	poolStore    map[*Loc][]Value
 	asmNotes     []string
 	asmAccesses  int
 	asmSteps     int
@@ -118,7 +119,7 @@ type unsupported struct{ msg string }
 
 func NewMachine(prog *ssa.Program) *Machine {
 	m := &Machine{prog: prog, sol: NewSolver(), globals: map[*ssa.Global]*Loc{}, assumed: map[*T]bool{}, concs: map[*T]uint64{},
-		opaqueLocs: map[string]*Loc{}, stubsUsed: map[string]int{}, assertsSeen: map[string]int{}, fnsEncoded: map[*ssa.Function]bool{}, allocated: BV(64, 0), findings: map[string]*Finding{}, intr: map[string]func(*Machine, *Frame, []Value, ssa.Instruction, bool) (Value, int){}, maxSteps: 60000, opaque: map[string]Iface{}}
+		poolStore: map[*Loc][]Value{}, opaqueLocs: map[string]*Loc{}, stubsUsed: map[string]int{}, assertsSeen: map[string]int{}, fnsEncoded: map[*ssa.Function]bool{}, allocated: BV(64, 0), findings: map[string]*Finding{}, intr: map[string]func(*Machine, *Frame, []Value, ssa.Instruction, bool) (Value, int){}, maxSteps: 60000, opaque: map[string]Iface{}}
 	registerIntrinsics(m)
 	return m
 }
@@ -960,9 +961,17 @@ func (m *Machine) step() {
 				s.BA = newZeroBA(0)
 			}
 		} else {
-			n := int(m.conc(cp, 64))
-			s.Cap = BV(64, uint64(n))
-			s.AL = newLoc(types.NewArray(et, int64(n)))
+			// only the first elements of a large array are materialised (an access beyond them is reported as unsupported);
+			// a symbolic capacity stays symbolic when the length is concrete
+			mat := 1024
+			if cp.IsC || !ln.IsC {
+				n := int(m.conc(cp, 64))
+				s.Cap = BV(64, uint64(n))
+				mat = n
+			} else if int(ln.C) > mat {
+				mat = int(ln.C)
+			}
+			s.AL = newLoc(types.NewArray(et, int64(mat)))
 		}
 		m.setReg(fr, x, s)
 	case *ssa.MakeMap:
